@@ -60,6 +60,25 @@ CHECKS['C11'] = ('hypothesis', 'exploration',
     'parse_topics/parse_options invert a renderer written from the docstrings, with whitespace variation, !no-x, JSON values and ! inside passwords.',
     'every valid configuration = every configuration the documented grammar can build; undocumented accepted forms are not generated.', '5 C11')
 
+CHECKS['C12'] = ('hypothesis', 'exploration',
+    'property-based testing (Hypothesis): constructive command-line generator + validity predicate with an independent model of id assignment, auto-chaining and address normalisation',
+    'Generated argument lists for cli.common.parse_filters (1-6 built-in filters, ids, id references with ?/??/;topic/!opt suffixes, real addresses, bare and empty '
+    '--sources/--outputs, explicit ports incl. next to the allocator start, --ipc); checks unique ids, every id/auto-chained source rewritten to an address bound by exactly the '
+    'referenced filter with its suffix preserved, {p,p+1} port pairs of all tcp outputs disjoint, explicit addresses/options unchanged, ipc links under --ipc.',
+    'command lines are restricted to what the CLI documents (non-overlapping user ports, ids without blanks, resolvable filter names).', '5 C12')
+CHECKS['C13'] = ('hypothesis', 'exploration',
+    'model-based testing: Hypothesis-generated operation histories interpreted against a list model of the records plus file-system invariants after every write',
+    'Histories of write/read/read_block/seek/tell/refresh/close-reopen/external deletion over a writer and up to three followers, all four modes, file_size from 1 byte, '
+    'total_size from below one file, clock steps incl. 0 and negative; every delivered record must be a whole written record in increasing order per seek epoch; after draining, '
+    'every record at or after the epoch start whose file survives must have been delivered; size budget, newest file kept, no existing file overwritten after every write.',
+    'single-threaded interleavings of one writer and its followers; flush=True; fs faults = external deletions.', '5 C13')
+CHECKS['C14'] = ('hypothesis', 'fault_enumeration',
+    'fault injection + model-based testing: crash injected at each file-system step of a position save (enumerated matrix) and in Hypothesis-generated histories; list model across restarts',
+    'A crash (BaseException raised from wrapped open/write/close/rename) is injected at each of 7 points of write_head for every save of a fixed skeleton (exhaustive matrix) and '
+    'at generated points of generated histories, the reader is abandoned and re-created on the same head file: restart must succeed, nothing older than the last completed save '
+    'is delivered again, and across all incarnations every record whose file survives is delivered.',
+    'rename atomic; a crash loses only un-closed/un-renamed data; clock strictly increasing.', '5 C14')
+
 PENDING = {}
 
 
